@@ -19,7 +19,7 @@ def read_edges(path):
             if line.startswith('"SCRIPT '):
                 s = json.loads(line)
                 edges.append(json.loads(s[7:]))
-            elif "states generated" in line and "distinct" in line:
+            elif "states generated" in line and "distinct" in line and line[0].isdigit():
                 w = line.split()
                 stats["transitions"] = int(w[0])
                 stats["states"] = int(w[3])
